@@ -115,7 +115,10 @@ pub fn learn_case(name: &'static str, input: Shape, layers: Vec<L>, nout: usize,
             let mut twin = build_net(input.clone(), &layers);
             twin.set_objective(obj.lib(), None);
             let xs: Vec<Tensor> = (0..n).map(|i| input_tensor(ctx, &input, &format!("x{}", i))).collect();
-            let ts: Vec<Tensor> = (0..n).map(|i| t1(&v1(ctx, &format!("t{}", i), nout))).collect();
+            // "-zt" networks: the last sample's target is the concrete all-zero row (cross-entropy loss exactly zero while
+            // the gradient p - t is not), so a path that depends on `loss == 0.0` has a model that replays natively
+            let zero_last = name.ends_with("-zt");
+            let ts: Vec<Tensor> = (0..n).map(|i| if zero_last && i + 1 == n { t1(&vec![lit(0.0); nout]) } else { t1(&v1(ctx, &format!("t{}", i), nout)) }).collect();
             let (xr, tr): (Vec<&Tensor>, Vec<&Tensor>) = (xs.iter().collect(), ts.iter().collect());
             let sl = slots(&net);
             let log = install_havoc_stub();
@@ -305,9 +308,14 @@ pub fn cases(tier: Tier, seed: u64) -> Vec<Case> {
         }
     }
     // an objective whose loss can be exactly zero while its gradient is not (cross-entropy of a soft-max output)
-    out.push(learn_case("dense-softmax", Shape::Single(2), vec![L::Dense(2, Softmax, true)], 2, Obj::CrossEntropy, 2, 2, 1));
+    // (three outputs: the library's soft-max backward - known finding C01 - is identically zero for two outputs, which made
+    // the two-output version of this case blind to a dropped sample gradient)
+    out.push(learn_case("dense-softmax3", Shape::Single(2), vec![L::Dense(3, Softmax, true)], 3, Obj::CrossEntropy, 2, 2, 1));
+    out.push(learn_case("dense-softmax3-zt", Shape::Single(2), vec![L::Dense(3, Softmax, true)], 3, Obj::CrossEntropy, 2, 2, 1));
     if full {
-        out.push(learn_case("dense-softmax", Shape::Single(2), vec![L::Dense(2, Softmax, true)], 2, Obj::CrossEntropy, 3, 2, 1));
+        out.push(learn_case("dense-softmax", Shape::Single(2), vec![L::Dense(2, Softmax, true)], 2, Obj::CrossEntropy, 2, 2, 1));
+        out.push(learn_case("dense-softmax3", Shape::Single(2), vec![L::Dense(3, Softmax, true)], 3, Obj::CrossEntropy, 3, 2, 1));
+        out.push(learn_case("dense-softmax3-zt", Shape::Single(2), vec![L::Dense(3, Softmax, true)], 3, Obj::CrossEntropy, 3, 2, 1));
     }
     // groups larger than the library's internal parallel chunk size (64) are still one group
     let one = vec![L::Dense(1, Linear, false)];
